@@ -278,7 +278,7 @@ PathRefines == Walk(po) = pel
 Init ==
   /\ tree = << >> /\ st = <<>>
   /\ pel = <<>> /\ po = [buf |-> <<>>, off |-> 0, len |-> 0, first |-> 0, sep |-> Sep, asg |-> 0]
-  /\ obs = [a |-> "init", arg |-> [base |-> IF Base = <<>> THEN <<>> ELSE Str(Base), sep |-> Sep,
+  /\ obs = [a |-> "init", arg |-> [base |-> IF Base = <<>> THEN <<0>> ELSE Str(Base), sep |-> Sep,     \* <<0>>: no view
                                     uni |-> [i \in 1..Len(Uni) |-> Str(Uni[i])],
                                     rel |-> [i \in 1..Len(RelUni) |-> IF RelUni[i] = <<>> THEN <<0>> ELSE Str(RelUni[i])]],
             exp |-> [ret |-> "ok", anyret |-> FALSE, all |-> [i \in 1..Len(Uni) |-> NoVal],
